@@ -108,6 +108,9 @@ class RefBleAccessory:
                         GattChar(CH_PAIR_SETUP, 2, SVC_PAIRING, "setup"), GattChar(CH_PAIRING_FEATURES, 5, SVC_PAIRING, "features")]
         for iid, c in chars.items():
             self.handles.append(GattChar(c["uuid"], iid, c.get("service", SVC_TEST)))
+        self.gsn = 1                            # global state number / configuration number (HAP-BLE 7.4.1.8)
+        self.config_num = 1
+        self.on_char_read = None                # callable(iid): called after a characteristic read was answered (something changes meanwhile)
         self.service_iids = {SVC_PAIRING: 1, SVC_TEST: 8}      # GATT database: service uuid -> instance id
         self.service_linked = {}                # service uuid -> list of linked service instance ids
         self.service_props = {}                 # service uuid -> HAP service properties (1 primary, 2 hidden, 4 configurable)
@@ -249,6 +252,9 @@ class RefBleAccessory:
             if linked is not None:
                 items.append((0x10, b"".join(struct.pack("<H", x) for x in linked)))
             return 0, tlv_enc(items)
+        if op == OP_PROTO and h.kind == "svc-sig":
+            # HAP-Protocol-Configuration on a service signature characteristic: the global state number, configuration number, advertising id
+            return 0, tlv_enc([(1, struct.pack("<H", self.gsn & 0xFFFF)), (2, bytes([self.config_num & 0xFF])), (3, self.ident.pairing_id[:6])])
         if op == OP_SIG and h.kind in ("verify", "pairings", "setup", "features", "svc-sig"):
             decl = {"uuid": h.uuid, "format": "uint8" if h.kind == "features" else "data", "perms": ["pr"] if h.kind in ("features", "svc-sig") else ["pr", "pw"]}
             return 0, tlv_enc(signature_items(decl, h.iid, self.service_iids.get(h.service_uuid, 0), h.service_uuid))
@@ -301,7 +307,10 @@ class RefBleAccessory:
             st = c.get("read_status", 0)
             if st:
                 return st, b""
-            return 0, tlv_enc([(1, c.get("value", b"\x00"))])
+            out = tlv_enc([(1, c.get("value", b"\x00"))])
+            if self.on_char_read is not None:
+                self.on_char_read(iid)
+            return 0, out
         if op == OP_PROTO:
             return 0, tlv_enc([(1, struct.pack("<H", c.get("gsn", 1))), (2, b"\x01"), (3, self.ident.pairing_id[:6])])
         return 6, b""
